@@ -457,7 +457,9 @@ def gen_solver_case(rng: random.Random):
     while frame["kind"] == "const":
         frame = gen_frame(rng, gspec)
     opts = gen_options(rng, len(gspec["shape"]))
-    if opts.get("perturbation_modes", 0) > 0 and opts.get("refine"):
+    if opts.get("perturbation_modes", 0) > 0 and (opts.get("refine") or len(gspec["shape"]) == 1):
+        # 1d + modes > 0 raises in the first handle call, which aborts the solver run before anything is
+        # stored (that path is exercised by the directly driven cases)
         opts["perturbation_modes"] = 0
     interrupts = rng.choice([0.1, 0.25, 0.05, [0.0, 0.02, 0.3, 0.31], "geometric"])
     if interrupts == "geometric":
@@ -805,7 +807,7 @@ def check(ctx: vlib.Ctx) -> int:
     violations = []
 
     # ---- droplet tracker: corpus + stream
-    n_stream = ctx.scale(150, 1500)
+    n_stream = ctx.scale(350, 2500)
     cases = corpus() + [gen_case(rng) for _ in range(n_stream)]
     vid, eid, xid = Ids(), Ids(), Ids()
     lsig = locate_signature()
@@ -835,7 +837,7 @@ def check(ctx: vlib.Ctx) -> int:
         literals.append(droplet_case_literal(case, obs, vid, eid, xid, lsig))
 
     # ---- length-scale tracker
-    lcases = corpus_length() + [gen_length_case(rng) for _ in range(ctx.scale(60, 500))]
+    lcases = corpus_length() + [gen_length_case(rng) for _ in range(ctx.scale(150, 800))]
     lliterals = []
     for k, case in enumerate(lcases):
         obs = run_length_case(case, str(tmpdir) if k % 3 == 0 else None)
@@ -852,7 +854,7 @@ def check(ctx: vlib.Ctx) -> int:
         lliterals.append(length_case_literal(case, obs, vid, xid))
 
     # ---- solver runs
-    for k in range(ctx.scale(12, 80)):
+    for k in range(ctx.scale(30, 120)):
         case = gen_solver_case(rng)
         obs = run_solver_case(case, str(tmpdir))
         fails = judge_solver_case(case, obs)
